@@ -51,6 +51,7 @@ def read_log(s):
 def run_seq(job):
     mode, hook, seq = job[:3]
     noq = len(job) > 3 and job[3] == "noq"   # the session starts with a template that does not mention the query
+    focusbind = len(job) > 3 and job[3] == "focus"  # a focus binding exists (the terminal then tracks the focused item in a second place)
     res = dict(evals=1, nt=1 if seq else 0, trans=len(seq))
     hp = None
     if hook:
@@ -62,7 +63,7 @@ def run_seq(job):
     os.chmod(script, 0o755)
     cmdA = ("%s A {n} - {+n}" if noq else "%s A {n} {q} {+n}") % script
     cmdB = "%s B {n} {q} {+n}" % script
-    s = P.Session(["--multi", "--no-scrollbar", "--preview-window", "right,50%", "--preview", cmdA], ITEMS, rows=12, cols=70,
+    s = P.Session(["--multi", "--no-scrollbar", "--preview-window", "right,50%", "--preview", cmdA] + (["--bind", "focus:change-header(f)"] if focusbind else []), ITEMS, rows=12, cols=70,
                   hook_points=hp, env={"C20_MODE": mode, "C20_DIR": base})
     s.c20dir = base
     m = Model(ITEMS, multi=2 ** 31 - 1)
@@ -241,6 +242,8 @@ def run(c, replay):
                 jobs.append((mode, hook, q))
                 if hook is None and mode in ("instant", "slow") and "change-preview" in q and len(q) <= 2:
                     jobs.append((mode, hook, q, "noq"))
+                if hook is None and mode in ("instant", "slow") and len(q) <= 2 and ("up" in q or "down" in q):
+                    jobs.append((mode, hook, q, "focus"))
     c.bounds = dict(events=EVENTS, depth=depth, duration_classes=["instant", "slow (gated)", "chatty (incremental output, gated)", "never-ending"],
                     hook_modes=["none", "preview:dequeued held", "preview:started held"], sessions=len(jobs))
     sweep.run_jobs(c, "event-sequences", run_seq, jobs, deadline_s=c.pick(400, 3000), nworkers=16,
